@@ -351,6 +351,19 @@ class Env:
             kw["global_repository"] = True
         if self.classes:
             kw["classes"] = self.classes
+        if cfg.get("earlier_variant") and not cfg["global_repo"] and not cfg.get("prim_root") and \
+                any(n == "Box" and v in ("plain", "own-dunders", "inherited-dunders", "falsy", "value-eq")
+                    for n, v in cfg["classes"]):
+            # the same classes served an *earlier* metamodel of a slightly different language (the Box rule keeps its
+            # children in `things`), and a model was loaded with it: whatever that left on the classes is stale now
+            variant = grammar().replace("'{' items*=Item '}'", "'{' things*=Item '}'")
+            self.rec.depth += 1
+            try:
+                mm0 = metamodel_from_str(variant, **kw)
+                mm0.model_from_str("box q { def z box r { def y } }")
+            finally:
+                self.rec.depth -= 1
+            ctx.probe("classes-used-by-an-earlier-metamodel-of-another-grammar")
         # optional: an abstract root rule with a match alternative - a model file may then be a plain number
         if cfg.get("grammar_files") and not cfg.get("prim_root"):
             # the language's grammar spread over several grammar files (main.tx -> mid.tx -> deep.tx)
@@ -739,6 +752,7 @@ def draw_cfg(t, prop, nfiles):
         # built with the same classes the clean-up of a *failed* load looks into the wrong metamodel's repository - a
         # limitation of sharing classes between metamodels, recorded in DESIGN.md section 6, not generated)
         "built_twice": prop == "C13" and t.chance(1, 6, "metamodel-built-twice-with-the-same-classes"),
+        "earlier_variant": prop == "C13" and t.chance(1, 5, "classes-used-by-an-earlier-metamodel"),
         # two registered languages (files f<odd>.n belong to a second metamodel with processors of its own); the main
         # language may have no object processors at all
         "two_langs": prop == "C13" and family in ("plainuri", "fqnuri") and t.chance(1, 4, "two-languages"),
